@@ -110,15 +110,18 @@ type Header struct {
 // Load checks the Magic sequence and loads the header fields.
 func (h *Header) Load(buf []byte) error {
 	// Use a magic byte sequence to bail fast when user passes a corrupted/unrelated stream.
-	if *(*[8]byte)(buf[:8]) != Magic {
+	if len(buf) < 8 || *(*[8]byte)(buf[:8]) != Magic {
 		return fmt.Errorf("not a radiance compactindex file")
 	}
 	// read length of the rest of the header
-	lenWithoutMagicAndLen := binary.LittleEndian.Uint32(buf[8:12])
-	if lenWithoutMagicAndLen < 12 {
+	if len(buf) < 12 {
 		return fmt.Errorf("invalid header length")
 	}
-	if lenWithoutMagicAndLen > uint32(len(buf)) {
+	lenWithoutMagicAndLen := binary.LittleEndian.Uint32(buf[8:12])
+	if lenWithoutMagicAndLen < 13 { // value size (8) + number of buckets (4) + version (1)
+		return fmt.Errorf("invalid header length")
+	}
+	if uint64(lenWithoutMagicAndLen)+12 > uint64(len(buf)) {
 		return fmt.Errorf("invalid header length")
 	}
 	// read the rest of the header
